@@ -1,15 +1,11 @@
 /-
-  C07 witnesses: four places where mujoco_warp's sensor/energy pipeline still does NOT agree with MuJoCo C.
+  C07 witnesses: three places where mujoco_warp's sensor/energy pipeline still does NOT agree with MuJoCo C.
   Each is proved of the regenerated model (Gen/Sensor.lean, Gen/Host.lean) and reproduced on the real code by
-  harness/props/c07.py (trigger ids `touch-cutoff`, `energy-flag-off-zeroed`, `static-body-acc`, `ballquat-zero`).
-  (Two earlier witnesses are gone because /repo was repaired — limit sensors reading rows of the other kind, and stale
-  d.energy with ENERGY flag + energy sensor + sensors disabled; their positive statements are now proved in
-  Props/C07.lean (2q-2t) and Props/C07Host.lean (4b).)
+  harness/props/c07.py (trigger ids `energy-flag-off-zeroed`, `static-body-acc`, `ballquat-zero`).
+  (Three earlier witnesses are gone because /repo was repaired — limit sensors reading rows of the other kind, stale
+  d.energy with ENERGY flag + energy sensor + sensors disabled, and W1 "touch sensors ignore sensor_cutoff"; their
+  positive statements are now proved in Props/C07.lean (2q-2t, 2u-2v) and Props/C07Host.lean (4b, 5a-5b).)
 
-  W1  touch sensors ignore `sensor_cutoff`.  MuJoCo: touch has datatype POSITIVE and `apply_cutoff(mjSTAGE_ACC)` caps it
-      at the cutoff.  sensor.py: `_sensor_touch` atomically adds the raw normal force to sensordata and the launch does
-      not even receive `sensor_cutoff`; no later kernel of `sensor_acc` revisits touch sensors.
-      Reproduce: sphere (mass 1, r = .1) resting on a plane, `<touch site=… cutoff="2.5"/>`: mj_forward 2.5, mjw 34.3.
   W5  (low severity) with the ENERGY flag off and an energy sensor present MuJoCo leaves the sensor-computed value in
       d.energy; mujoco_warp computes it for the sensor and then zeroes d.energy (sensordata agree, d.energy differs).
   W6  linear-acceleration sensors (ACCELEROMETER, FRAMELINACC) of an object on a body welded to the world: MuJoCo 3.13
@@ -33,54 +29,6 @@ set_option linter.unreachableTactic false
 
 namespace Mjw.Props.C07
 open Mjw Mjw.Gen.Sensor Mjw.Lemmas.C07 Mjw.Spec.Sensor Mjw.HostGraph Mjw.Gen.Host
-
-/-! ## W1 touch sensors ignore the cutoff -/
-
-/-- host graph: `forward()` launches `_sensor_touch` exactly once, and that launch reads neither `m.sensor_cutoff` nor
-    `m.sensor_datatype` (the position/velocity/acceleration dispatch kernels and `_limit_*` do) -/
-theorem touch_launch_does_not_read_cutoff_witness :
-    ((forward_forward.filter (fun ev => ev.kind == EvKind.launch && ev.subject == nameId "sensor._sensor_touch")).map
-        (fun ev => (ev.reads.contains (nameId "m.sensor_cutoff"), ev.reads.contains (nameId "m.sensor_datatype")))
-      = [(false, false)])
-    ∧ ((forward_forward.filter (fun ev => ev.kind == EvKind.launch && ev.subject == nameId "sensor._sensor_acc")).map
-        (fun ev => (ev.reads.contains (nameId "m.sensor_cutoff"), ev.reads.contains (nameId "m.sensor_datatype")))
-      = [(true, true)]) := by
-  decide +kernel
-
-/-- kernel (elliptic cones): whenever the thread of contact `con` and touch sensor `ts` writes at all, it atomically
-    adds the RAW normal force `efc_force[w, efc_address[con, 0]]` to `sensordata[w, sensor_adr[sid]]` — for a force above
-    the sensor's cutoff `c` this differs from MuJoCo's `apply_cutoff` value `c` -/
-theorem touch_ignores_cutoff_witness (cone : Int) (gb stype sb : Int → Int) (ssize : Int → V3 ℝ) (sobj sadr stadr : Int → Int)
-    (sxpos : Int → Int → V3 ℝ) (sxmat : Int → Int → M33 ℝ) (cpos : Int → V3 ℝ) (cframe : Int → M33 ℝ) (cdim : Int → Int)
-    (cgeom : Int → I2) (cadr : Int → Int → Int) (cworld : Int → Int) (force : Int → Int → ℝ) (nacon : Int → Int)
-    (sdata : Int → Int → ℝ) (con ts : Int) (hcone : cone ≠ 0) (c : ℝ) (hc : 0 < c) (hf : c < force (cworld con) (cadr con 0)) :
-    ∀ wr ∈ _sensor_touch cone gb stype sb ssize sobj sadr stadr sxpos sxmat cpos cframe cdim cgeom cadr cworld force nacon sdata con ts,
-      wr.arr = "sensordata_out" ∧ wr.idx = [cworld con, sadr (stadr ts)] ∧ wr.kind = WKind.aadd
-      ∧ wr.val = WVal.f (force (cworld con) (cadr con 0))
-      ∧ applyCutoff 0 POSITIVE c (force (cworld con) (cadr con 0)) = c
-      ∧ force (cworld con) (cadr con 0) ≠ applyCutoff 0 POSITIVE c (force (cworld con) (cadr con 0)) := by
-  have hcut : applyCutoff 0 POSITIVE c (force (cworld con) (cadr con 0)) = c := by
-    unfold applyCutoff
-    simp [hc, hf, sgt, slit, slt]
-  intro wr hwr
-  have hcone' : ¬ cone = 0 := hcone
-  unfold _sensor_touch at hwr
-  simp only [hcone', decide_false, Bool.false_eq_true, if_false] at hwr
-  split_ifs at hwr <;> simp_all
-  all_goals first
-    | exact ne_of_gt hf
-    | (split_ifs at hwr <;> simp_all <;> exact ne_of_gt hf)
-
-/-- non-vacuity (the kernel does write, and the hypotheses are satisfiable with cutoff ½): a spherical touch site of
-    radius 1 at the origin on body 1, one elliptic contact at its centre with normal force 1 between two geoms of body 1 -/
-example : (_sensor_touch 1 (fun _ => 1) (fun _ => 2) (fun _ => 1) (fun _ => (⟨1, 1, 1⟩ : V3 ℝ)) (fun _ => 0) (fun _ => 0) (fun _ => 0)
-    (fun _ _ => ⟨0, 0, 0⟩) (fun _ _ => ⟨1, 0, 0, 0, 1, 0, 0, 0, 1⟩) (fun _ => ⟨0, 0, 0⟩) (fun _ => ⟨0, 0, 1, 1, 0, 0, 0, 1, 0⟩) (fun _ => 3)
-    (fun _ => ⟨0, 1⟩) (fun _ _ => 0) (fun _ => 0) (fun _ _ => (1 : ℝ)) (fun _ => 1) (fun _ _ => 0) 0 0)
-      = [⟨"sensordata_out", [0, 0], WVal.f 1, WKind.aadd⟩] := by
-  simp only [_sensor_touch, Gen.Ray.ray_geom, Gen.Ray.ray_sphere, Gen.Ray._ray_quad, Gen.Math.normalize_with_norm_V3,
-    Gen.Math.safe_div_F_F, V3.muls, V3.neg, V3.sub, V3.add, V3.dot, V3.length, V3.normalize, V3.zero, V3.fill, V3.divs]
-  norm_num [Real.sqrt_one]
-example : (0 : ℝ) < 1 / 2 ∧ (1 / 2 : ℝ) < (fun (_ _ : Int) => (1 : ℝ)) 0 0 := by norm_num
 
 /-! ## W5 with the flag off the sensor-computed energy is zeroed -/
 
